@@ -125,6 +125,7 @@ func checkC06(cx *Ctx, r *Report) {
 	r.NotDec = []string{"that time.Parse with the layout accepts exactly the supported lexical forms", "XML well-formedness as judged by encoding/xml"}
 	r.Assume = []string{"chain semantics (C20, re-checked)", "getter closures passed to the checker are pure"}
 	cx.checkDecodesWholeMessage(r, "R-STRICT", "xml.DecodeAuthNRequest")
+	cx.errDisciplineOfHandler(r, kSSO)
 	if !cx.requireC20(r) {
 		return
 	}
@@ -416,19 +417,13 @@ func (cx *Ctx) checkErrPropagation(r *Report, rule, key string, fn *ssa.Function
 			r.Fail(rule, ckey, w.InstrPos(call), "the error result of "+calleeName(call)+" is discarded")
 			continue
 		}
-		if fx.isReturned(e) {
-			// returned: fine when every return of it is in the error position - unless the error is also tested and
-			// the failing branch goes on to something that counts as success (a retry loop around a storage call)
-			if nn, tested := fx.errBranches(e); tested {
-				if bad := cx.successAfterFailure(nn, call); bad != "" {
-					r.Fail(rule, ckey, w.InstrPos(call), bad)
-					continue
-				}
-			}
+		nonNil, tested := fx.errBranches(e)
+		if fx.isReturned(e) && !tested {
+			// handed on untested (`return f()`, `x, err := f(); return x, err`): the caller gets the verdict
 			r.Ok(rule, ckey, w.InstrPos(call), "error returned to the caller")
 			continue
 		}
-		nonNil, tested := fx.errBranches(e)
+		// tested (whether or not it is also returned somewhere): what matters is where the failing branch leads
 		if !tested {
 			r.Fail(rule, ckey, w.InstrPos(call), "the error result of "+calleeName(call)+" is neither tested nor returned")
 			continue
